@@ -211,9 +211,11 @@ PROPS = {
                    "acquired before its buffer is allocated; DATA is split into pieces of min(remaining, read_frame_size) that exhaust the "
                    "announced length (no underflow); read_exact only appends, in order, exactly the bytes it removes from the frames and never "
                    "panics given what the dispatcher can deliver; a new transient stream starts from a clean state (no cached bytes, CLOSE "
-                   "flag reset); write_all/send_data emit DATA frames of at most write_frame_size <= 65535 bytes, so the length prefix is exact.",
+                   "flag reset); write_all/send_data emit DATA frames of at most write_frame_size <= 65535 bytes, so the length prefix is exact; "
+                   "Mux::verify accepts only configurations asking for at most 2^13 streams per direction, and spawn_streams -- whatever stream "
+                   "counts the PEER announces in its handshake -- allocates ids that fit the 13-bit field (StreamId::new's assert!, the `as u16`).",
         level_note="Not decided: ReusableStream::run (three-way OPEN, lock hand-over between transient streams, CLOSE on drop) -- concurrent tasks "
-                   "per stream id -- and therefore the count of simultaneously open transient streams; spawn_streams id allocation; the "
+                   "per stream id -- and therefore the count of simultaneously open transient streams; the "
                    "writer task's `as u16` (covered only through Config::verify's bound). read_frame_size > 0 is a precondition on the local "
                    "configuration. Channels/semaphores are opaque handles with documented behaviour (A4).",
         technique="contract-based deductive verification (Verus on extracted real functions; bit-vector lemmas; ghost permit accounting on the channel stub)",
